@@ -34,7 +34,7 @@ import (
 func init() {
 	core.RegisterMeta("C13", core.Meta{
 		Rule: "templates (status × reason 0–10 × serial 1…2^159 × times with sub-second parts and zones, zero nextUpdate × issuer hash {0,SHA1,SHA256,SHA384,SHA512} × extensions × " +
-			"signature algorithm {0, each valid} × responder {issuer, issuer embedded, delegated embedded, delegated not embedded, delegated certified by another CA}) × issuer keys " +
+			"signature algorithm {0, each valid} × responder {issuer, issuer embedded, delegated embedded, delegated not embedded, delegated certified by another CA, impostors whose certificate carries the issuer's or a trusted responder's exact subject but another key — self-signed or certified by another CA}) × issuer keys " +
 			"{ECDSA P-256/384/521, RSA-2048} through CreateResponse/ParseResponse; CreateRequest/ParseRequest with every hash; multi-response encodings (2–4 singles, duplicate serials) from the " +
 			"harness's DER writer through ParseResponseForCert; every byte of short signed responses flipped (all 8 bits for the full seeds) and structural mutations, judged by an independent " +
 			"verifier (own TLV reader + crypto/ecdsa, crypto/rsa) with golang.org/x/crypto/ocsp as second opinion; non-trivial = the untampered message was accepted and every listed field " +
@@ -60,6 +60,10 @@ type c13issuer struct {
 	*party
 	delegates []*party // responder certificates signed by this issuer
 	rogue     *party   // delegates[0]'s name and key, certified by another CA
+	// impostors carry a subject that collides with a trusted name but their own key, and are not certified by the issuer:
+	// [0] issuer's exact subject, self-signed   [1] issuer's exact subject, certified by the other CA
+	// [2] delegates[1]'s subject, self-signed   [3] delegates[1]'s subject, issuer field naming this issuer, signed by the other CA
+	impostors []*party
 	leaves    []*zx509.Certificate
 }
 
@@ -140,6 +144,35 @@ func newC13env(c *core.Ctx) (*c13env, error) {
 			return nil, err
 		}
 		is.rogue = rg
+		type impDef struct {
+			label   string
+			name    *dn
+			ec      int
+			issuer  []byte // issuer field; nil = self-issued
+			byOther bool
+			ca      bool
+		}
+		for j, id := range []impDef{
+			{"impostor-issuer-name-self-signed", p.name, 11, nil, false, true},
+			{"impostor-issuer-name-other-ca", p.name, 13, e.other.name.der, true, true},
+			{"impostor-responder-name-self-signed", is.delegates[1].name, 14, nil, false, false},
+			{"impostor-responder-name-other-ca", is.delegates[1].name, 15, p.name.der, true, false},
+		} {
+			ip := &party{label: id.label + "-" + d.label, name: id.name, ec: keys.Get().EC[id.ec].Priv}
+			spec := certSpec{serial: big.NewInt(int64(700 + 10*i + j)), issuer: id.issuer, subject: id.name.der, spki: spkiOf(ip.pub()), ca: id.ca, ocspSigner: !id.ca}
+			sk := ip.signKey()
+			if id.issuer == nil {
+				spec.issuer = id.name.der
+			}
+			if id.byOther {
+				sk = e.other.signKey()
+			}
+			ip.der = buildCertWith(spec, sk)
+			if err := ip.finish(); err != nil {
+				return nil, err
+			}
+			is.impostors = append(is.impostors, ip)
+		}
 		leafDN := randomDN(r, "leaf "+d.label+" "+tag)
 		leafSPKI := spkiOf(&keys.Get().EC[10].Priv.PublicKey)
 		for j := 0; j < 6; j++ {
@@ -241,10 +274,15 @@ const (
 	modeDelegatedEmbedded
 	modeDelegatedBare
 	modeRogueEmbedded
+	modeImpostor0 // … modeImpostor0+3: response signed by is.impostors[k], its certificate embedded
+	modeImpostor1
+	modeImpostor2
+	modeImpostor3
 	nModes
 )
 
-var modeNames = []string{"issuer-signs", "issuer-signs-cert-embedded", "delegated-embedded", "delegated-not-embedded", "delegated-certified-by-other-ca"}
+var modeNames = []string{"issuer-signs", "issuer-signs-cert-embedded", "delegated-embedded", "delegated-not-embedded", "delegated-certified-by-other-ca",
+	"impostor-issuer-name-self-signed", "impostor-issuer-name-other-ca", "impostor-responder-name-self-signed", "impostor-responder-name-other-ca"}
 
 type rtCase struct {
 	issuer int
@@ -306,6 +344,10 @@ func (e *c13env) genRT(r *rand.Rand, issuer, mode int, plain bool) *rtCase {
 	case modeRogueEmbedded:
 		rc.signer, rc.resp = is.rogue, is.rogue
 		t.Certificate = is.rogue.z
+	case modeImpostor0, modeImpostor1, modeImpostor2, modeImpostor3:
+		ip := is.impostors[mode-modeImpostor0]
+		rc.signer, rc.resp = ip, ip
+		t.Certificate = ip.z
 	}
 	if !plain && r.IntN(5) < 2 {
 		if rc.signer.ec != nil {
@@ -999,7 +1041,34 @@ func (e *c13env) mutate(r *rand.Rand, s, o *seed) (string, []byte) {
 	tbs, alg, sig, certs := p.tbs.full, p.sigAlg.full, p.sigBits.full, fulls(p.certs)
 	sigBytes := p.sigBits.content[1:]
 	is := s.issuer
-	switch r.IntN(20) {
+	switch r.IntN(23) {
+	case 20, 21:
+		// the whole signed part re-signed by a key whose certificate only *names* a trusted party
+		ip := is.impostors[r.IntN(len(is.impostors))]
+		sk := ip.signKey()
+		kind := "resigned-by-" + ip.label[:len(ip.label)-len(is.label)+len("issuer-")-1]
+		cs := [][]byte{ip.der}
+		if r.IntN(3) == 0 { // … with the genuine issuer / responder certificate trailing behind
+			cs = append(cs, is.der)
+			kind += "+genuine-cert-second"
+		}
+		return kind, assembleOCSP(tbs, sk.algID(), dBitString(sk.sign(tbs)), cs)
+	case 22:
+		// issuer's own certificate embedded, then edited outside subject and key (validity, extensions, signature)
+		if len(certs) != 0 || is.rsa != nil {
+			return "", nil
+		}
+		c0 := append([]byte{}, is.der...)
+		cn, err := readAll(c0)
+		if err != nil {
+			return "", nil
+		}
+		k, _ := cn.children()
+		kt, _ := k[0].children()
+		targets := []*node{kt[4], kt[len(kt)-1], k[2]} // validity, extensions, signature value
+		t := targets[r.IntN(len(targets))]
+		c0[t.off+t.hdrLen+r.IntN(len(t.content))] ^= byte(1 << r.IntN(8))
+		return "issuer-certificate-embedded-and-edited", assembleOCSP(tbs, alg, sig, [][]byte{c0})
 	case 0:
 		return "signature-with-trailing-bytes", assembleOCSP(tbs, alg, dBitString(append(append([]byte{}, sigBytes...), randBytes(r, 1+r.IntN(4))...)), certs)
 	case 1:
